@@ -260,3 +260,33 @@ def nonNegB (b : Bank) : Bool := b.accts.all fun p => decide (0 ≤ p.2.bal)
 
 end Bank
 end Ledger
+
+/-! ## Genesis (x/auth/genesis.go, x/nodes/genesis.go, x/apps/genesis.go, x/gov/keeper/genesis.go) -/
+namespace Ledger
+namespace Bank
+
+/-- `auth.InitGenesis`: store the accounts; an empty genesis supply is replaced by Σ accounts. -/
+def genesisAuth (accts : Accounts) (supply : Option Int) : Bank :=
+  ⟨accts, supply.getD accts.total⟩
+
+/-- The pool part of `nodes.InitGenesis` / `apps.InitGenesis`: the pool account is fetched (created
+empty if absent); **if it holds nothing** it is set to the staked total, otherwise it is left alone
+(the code then only checks equality); in both cases the supply is inflated by the staked total. -/
+def genesisFundPool (mt : ModTable) (b : Bank) (pool : String) (staked : Int) : Bank :=
+  match getModuleAccount mt b pool with
+  | (b1, .ok mi) =>
+    if b1.balOf mi.addr = 0 then
+      { accts := b1.accts.set mi.addr { bal := staked, module := some mi.name }, supply := b1.supply + staked }
+    else { b1 with supply := b1.supply + staked }
+  | (b1, _) => b1   -- os.Exit(1): no chain
+
+/-- `gov.InitGenesis`: `MintCoins(dao, DAOTokens)` (an error is only logged). -/
+def genesisDAO (mt : ModTable) (b : Bank) (daoTokens : Int) : Bank := (mintCoins mt b "dao" daoTokens).st
+
+/-- Module genesis order of app.go: auth, nodes, apps, (pocketcore), gov. -/
+def genesis (mt : ModTable) (accts : Accounts) (supply : Option Int) (nodePool appPool : String)
+    (stakedNodes stakedApps daoTokens : Int) : Bank :=
+  genesisDAO mt (genesisFundPool mt (genesisFundPool mt (genesisAuth accts supply) nodePool stakedNodes) appPool stakedApps) daoTokens
+
+end Bank
+end Ledger
